@@ -28,6 +28,7 @@ Record NumTheory (O : NumOps) := {
   fle_trans : forall x y z, fle x y -> fle y z -> fle x z;
   fle_antisym : forall x y, fle x y -> fle y x -> x = y;
   fle_total : forall x y, fle x y \/ fle y x;
+  feq_dec : forall x y : F O, {x = y} + {x <> y};
   fle_add : forall x y z, fle x y -> fle (fadd O x z) (fadd O y z);
   fle_mul : forall x y, fle (f0 O) x -> fle (f0 O) y -> fle (f0 O) (fmul O x y);
   fltb_spec : forall x y, fltb O x y = true <-> (fle x y /\ x <> y);
